@@ -506,6 +506,29 @@ def assigned_slices(f, var='line'):
     return res
 
 
+def prefix_rules(repo, rep, m):
+    """a test  x[a:b] == 'literal'  can only ever be true when b - a == len(literal)"""
+    n = 0
+    for f in m.functions.values():
+        for c in ast.walk(f.node):
+            if isinstance(c, ast.Compare) and len(c.ops) == 1 and isinstance(c.ops[0], (ast.Eq, ast.NotEq)) and isinstance(c.left, ast.Subscript) \
+                    and isinstance(c.left.slice, ast.Slice) and isinstance(c.comparators[0], ast.Constant) and isinstance(c.comparators[0].value, str):
+                sl = c.left.slice
+                lo = sl.lower.value if isinstance(sl.lower, ast.Constant) else (0 if sl.lower is None else None)
+                hi = sl.upper.value if isinstance(sl.upper, ast.Constant) else None
+                if lo is None or hi is None:
+                    continue
+                n += 1
+                lit = c.comparators[0].value
+                key = 'R-TABLE::geodepy/gnss.py::%s::%s' % (f.qualname, stmt_text(c)[:50])
+                if hi - lo == len(lit):
+                    rep.holds('R-TABLE', key, where(f, c), 'slice width %d matches the literal %r' % (hi - lo, lit), work=False)
+                else:
+                    rep.violated('R-TABLE', key, where(f, c), 'the %d-character slice [%d:%d] is compared with the %d-character literal %r: the test can never succeed' % (
+                        hi - lo, lo, hi, len(lit), lit), expected='width %d' % len(lit), actual='width %d' % (hi - lo))
+    return n
+
+
 def reader_rules(repo, rep, m):
     # SOLUTION/ESTIMATE
     f = m.functions.get('read_sinex_estimate')
@@ -646,6 +669,7 @@ def run(repo, rep):
     typestate_rules(repo, rep, m)
     format_rules(repo, rep, m)
     clock_rules(repo, rep, m)
+    prefix_rules(repo, rep, m)
     reader_rules(repo, rep, m)
 
 
